@@ -3,39 +3,44 @@ From Coq Require Import NArith List Bool String.
 From BM Require Import Base.Outcome Base.Prims.
 From BM.Gen Require Internal Root.
 
+(* a wrapper may bind the internal call's result to a local before returning it *)
+Ltac unfold_root := cbv delta [Root.try_cast_slice Root.try_cast_slice_mut Root.try_cast_ref Root.try_cast_mut Root.try_from_bytes
+  Root.try_from_bytes_mut Root.try_cast Root.cast Root.cast_ref Root.cast_mut Root.cast_slice Root.cast_slice_mut Root.bytes_of
+  Root.bytes_of_mut Root.from_bytes Root.from_bytes_mut Root.try_pod_read_unaligned Root.pod_read_unaligned]; cbv beta; rewrite ?bind_ret_r.
+
 Lemma root_try_cast_slice ENV A B s : Root.try_cast_slice ENV A B s = Internal.try_cast_slice ENV A B s.
-Proof. reflexivity. Qed.
+Proof. unfold_root; reflexivity. Qed.
 Lemma root_try_cast_slice_mut ENV A B s : Root.try_cast_slice_mut ENV A B s = Internal.try_cast_slice_mut ENV A B s.
-Proof. reflexivity. Qed.
+Proof. unfold_root; reflexivity. Qed.
 Lemma root_try_cast_ref ENV A B p : Root.try_cast_ref ENV A B p = Internal.try_cast_ref ENV A B p.
-Proof. reflexivity. Qed.
+Proof. unfold_root; reflexivity. Qed.
 Lemma root_try_cast_mut ENV A B p : Root.try_cast_mut ENV A B p = Internal.try_cast_mut ENV A B p.
-Proof. reflexivity. Qed.
+Proof. unfold_root; reflexivity. Qed.
 Lemma root_try_from_bytes ENV T s : Root.try_from_bytes ENV T s = Internal.try_from_bytes ENV T s.
-Proof. reflexivity. Qed.
+Proof. unfold_root; reflexivity. Qed.
 Lemma root_try_from_bytes_mut ENV T s : Root.try_from_bytes_mut ENV T s = Internal.try_from_bytes_mut ENV T s.
-Proof. reflexivity. Qed.
+Proof. unfold_root; reflexivity. Qed.
 Lemma root_try_cast ENV A B a : Root.try_cast ENV A B a = Internal.try_cast ENV A B a.
-Proof. reflexivity. Qed.
+Proof. unfold_root; reflexivity. Qed.
 Lemma root_cast ENV A B a : Root.cast ENV A B a = Internal.cast ENV A B a.
-Proof. reflexivity. Qed.
+Proof. unfold_root; reflexivity. Qed.
 Lemma root_cast_ref ENV A B a : Root.cast_ref ENV A B a = Internal.cast_ref ENV A B a.
-Proof. reflexivity. Qed.
+Proof. unfold_root; reflexivity. Qed.
 Lemma root_cast_mut ENV A B a : Root.cast_mut ENV A B a = Internal.cast_mut ENV A B a.
-Proof. reflexivity. Qed.
+Proof. unfold_root; reflexivity. Qed.
 Lemma root_cast_slice ENV A B a : Root.cast_slice ENV A B a = Internal.cast_slice ENV A B a.
-Proof. reflexivity. Qed.
+Proof. unfold_root; reflexivity. Qed.
 Lemma root_cast_slice_mut ENV A B a : Root.cast_slice_mut ENV A B a = Internal.cast_slice_mut ENV A B a.
-Proof. reflexivity. Qed.
+Proof. unfold_root; reflexivity. Qed.
 Lemma root_bytes_of ENV T t : Root.bytes_of ENV T t = Internal.bytes_of ENV T t.
-Proof. reflexivity. Qed.
+Proof. unfold_root; reflexivity. Qed.
 Lemma root_bytes_of_mut ENV T t : Root.bytes_of_mut ENV T t = Internal.bytes_of_mut ENV T t.
-Proof. reflexivity. Qed.
+Proof. unfold_root; reflexivity. Qed.
 Lemma root_from_bytes ENV T s : Root.from_bytes ENV T s = Internal.from_bytes ENV T s.
-Proof. reflexivity. Qed.
+Proof. unfold_root; reflexivity. Qed.
 Lemma root_from_bytes_mut ENV T s : Root.from_bytes_mut ENV T s = Internal.from_bytes_mut ENV T s.
-Proof. reflexivity. Qed.
+Proof. unfold_root; reflexivity. Qed.
 Lemma root_try_pod_read_unaligned ENV T s : Root.try_pod_read_unaligned ENV T s = Internal.try_pod_read_unaligned ENV T s.
-Proof. reflexivity. Qed.
+Proof. unfold_root; reflexivity. Qed.
 Lemma root_pod_read_unaligned ENV T s : Root.pod_read_unaligned ENV T s = Internal.pod_read_unaligned ENV T s.
-Proof. reflexivity. Qed.
+Proof. unfold_root; reflexivity. Qed.
